@@ -3,7 +3,8 @@ EXTENDS Bandtss
 CONSTANTS MaxH, StartWithGroup, Bal0
 
 Init ==
-    /\ par \in [period : PeriodSet, create : CreateSet]
+    \* (the second fee denom is explored in the fee facets only: they are the ones with more than two limits)
+    /\ par \in [period : PeriodSet, create : CreateSet, fx : IF Cardinality(LimitSet) > 2 THEN {0, 1} ELSE {0}]
     /\ h = 2 /\ now = 10
     /\ fee \in FeeSet
     /\ IF StartWithGroup
@@ -27,7 +28,8 @@ NextFees ==
     \/ \E ms \in MemberMenu, off \in ExecOffsets : Propose("authority", ms, 1, off)
     \/ \E g \in Groups : DkgDone(g, TRUE)
     \/ \E f \in FeeSet : SetFee(f)
-    \/ \E p \in Payer \cup {"authority"}, limit \in LimitSet, lx \in {0, 1}, incOK \in BOOLEAN :
+    \/ \E x \in {0, 1} : SetFx(x)
+    \/ \E p \in Payer \cup {"authority"}, limit \in LimitSet, lx \in {0, 2}, incOK \in BOOLEAN :
           \E S \in ComOrNone(current), SI \in ComOrNone(Incoming) : Request(p, limit, lx, S, incOK, SI)
     \/ \E id \in Sigs : SignAll(id)
     \/ \E dt \in DtSet : \E HS \in ComOrNone(current) : EndBlock(dt, HS)
